@@ -241,6 +241,11 @@ def build():
     Unit('C20/lemma/window_bound', u_lemma_window, [], expect_covers=['lemma/window']),
     Unit('C20/lemma/clock_stable', u_lemma_clock, [], expect_covers=['lemma/clock']),
   ]
+  # every backend write / create is paired with exactly one granted token (effect-log contract on
+  # one iteration of the writer loop, contracts/writer_units.py, labels C20/writer/*)
+  from . import writer_units as WU
+  units.append(Unit('writer.writeCachedDataPoints[iteration]', WU.u_write_iteration, [WU.WCD],
+                    expect_covers=['iteration/written', 'create/created']))
   return Property(
     'C20', units,
     trusted_base=['A-ENGINE', 'A-SMT', 'A-REAL', 'A-CLOCK'],
@@ -249,5 +254,6 @@ def build():
       "A-CLOCK: time() is non-decreasing, sleep(d) returns after at least d",
       "requires: capacity > 0, fill_rate > 0, cost >= 0 (writer.py passes 1; conf gives positive limits)",
       "only one thread uses a bucket at a time (writer thread; shutdownModifyUpdateSpeed runs on the reactor thread while the writer may be inside drain -- that interleaving is not covered)",
+      "writer pairing: TokenBucket is used in writeCachedDataPoints through its contract (peek/drain return a bool; blocking drain returns True)",
       "the bound is per configuration epoch: across setCapacityAndFillRate only the new-burst clause is claimed",
     ])
